@@ -230,19 +230,39 @@ func (p *Pool) Run(cases <-chan []byte, sink func(c []byte, o *Obs)) {
 					line []byte
 					err  error
 				}
-				ch := make(chan res, 1)
-				ww := w
-				go func() {
-					if _, err := ww.in.Write(append(append([]byte{}, c...), '\n')); err != nil {
-						ch <- res{nil, err}
-						return
+				// ask sends the case and waits for the answer; nil means no answer within d
+				ask := func(ww *worker, d time.Duration) *res {
+					ch := make(chan res, 1)
+					go func() {
+						if _, err := ww.in.Write(append(append([]byte{}, c...), '\n')); err != nil {
+							ch <- res{nil, err}
+							return
+						}
+						l, err := ww.out.ReadBytes('\n')
+						ch <- res{l, err}
+					}()
+					select {
+					case r := <-ch:
+						return &r
+					case <-time.After(d):
+						return nil
 					}
-					l, err := ww.out.ReadBytes('\n')
-					ch <- res{l, err}
-				}()
+				}
 				var obs *Obs
-				select {
-				case r := <-ch:
+				r := ask(w, timeout)
+				if r == nil {
+					// no answer: before calling it a hang, give the case a fresh worker and three times the
+					// budget (a loaded machine must not turn into a violation)
+					w.kill()
+					w = p.spawn()
+					r = ask(w, 3*timeout)
+					if r == nil {
+						w.kill()
+						w = nil
+						obs = &Obs{Evals: 1, Fails: []Fail{{Sig: Signature{Symptom: "timeout"}, Detail: fmt.Sprintf("no answer within %v, nor within %v on a fresh worker (hang)", timeout, 3*timeout)}}}
+					}
+				}
+				if r != nil {
 					if r.err != nil || len(r.line) == 0 {
 						w.kill()
 						w = nil
@@ -257,10 +277,6 @@ func (p *Pool) Run(cases <-chan []byte, sink func(c []byte, o *Obs)) {
 							w = nil
 						}
 					}
-				case <-time.After(timeout):
-					w.kill()
-					w = nil
-					obs = &Obs{Evals: 1, Fails: []Fail{{Sig: Signature{Symptom: "timeout"}, Detail: fmt.Sprintf("no answer within %v (hang)", timeout)}}}
 				}
 				mu.Lock()
 				if len(obs.Fails) > 0 && (obs.Fails[0].Sig.Symptom == "timeout" || obs.Fails[0].Sig.Symptom == "crash") {
